@@ -516,7 +516,7 @@ def c16(tier, seed, only):
 
 @check("C15")
 def c15(tier, seed, only):
-    from nusym import h_solve, h_prop  # noqa
+    from nusym import h_solve, h_prop, h_stack  # noqa
 
     chk = Check("C15", tier, seed, level="other")
     # (a) no dependence on how argsort breaks ties
@@ -546,12 +546,28 @@ def c15(tier, seed, only):
             r = chk.explore("history", dict(model=name, history=h, cfg=cfg), f"history/{name}/{'+'.join(h)}/{cfg or 'default'}", flags=dict(loop_budget=12000))
             batch.extend(r.acc.validate[:12])
     batch += solvefam.run_plan(chk, ["C15"], [(n, {}) for n in models])
+    # (d) mode hazards: concrete values read from uint8/uint16/int16/int32 arrays carry their type; when the exact result of an
+    # arithmetic operation (what Numba's 64-bit widening computes) does not fit the type NumPy's scalar arithmetic gives it
+    # in interpreted mode, the path's witness is run in both modes on the real build and the outcomes must be equal
+    hz_flags = dict(track_dtypes=True)
+    for cfg in _lemma_cfgs(tier):
+        if cfg["alg"] not in ("alldifferent", "gcc", "no_sub_cycle", "scc") or cfg["n"] > 3:
+            continue
+        if cfg["alg"] == "gcc" and cfg["n"] == 3 and tier == "quick" and cfg["params"] != [0, 0, 1, 0, 3, 1, 1]:
+            continue
+        from nusym import catalogue
+
+        r = chk.explore("prop", dict(cfg=cfg, select=["C15"], known=[k for k in load_known("C04") if k.get("harness", "prop") == "prop"]), f"hazards/{cfg['alg']}/n={cfg['n']}/{cfg['params']}", flags=dict(hz_flags, loop_budget=catalogue.loop_budget(cfg)))
+    for h_, n_ in ((8, 4), (8, 5), (256, 253), (256, 254)) if tier == "quick" else ((8, 4), (8, 5), (255, 252), (256, 252), (256, 253), (256, 254), (256, 255)):
+        for heur in ("min_value", "mid_value") if (tier != "quick" or h_ < 100) else ("min_value",):
+            chk.explore("stack_chain", dict(height=h_, nvars=n_, heur=heur, shaving=False, prop="C15", fixed_width=1 if heur == "min_value" else 2), f"hazards/chain/H={h_}/n={n_}/{heur}", flags=hz_flags, serial=True, time_limit=1200)
+    batch += solvefam.run_plan(chk, ["C15"], [(n, {}) for n in ("alldiff3", "circuit3", "gcc", "queens_like")], flags_extra=hz_flags)
     chk.tier_validate_jit = True
     chk.extra_cov["explanation"] = (
         "Decided by symbolic execution of the source (interpreted semantics): on every path (1) solutions and statistics contain no cell of an np.empty array (all such cells are unconstrained symbols), "
         "(2) a filtering call returns the same result for every permutation argsort may return on ties, (3) a fresh solver on a fresh problem and a solver created after a history of earlier solver "
         "constructions, partial/complete enumerations, an optimisation, registrations, split() and a second init() yield the same solution sequence (z3 equality of the terms) and the same statistics, "
-        "the problem object keeps its meaning, mutable default arguments are not mutated. NOT decided: that the Numba-compiled code computes what the source says (no tool here executes Numba's LLVM IR "
+        "the problem object keeps its meaning, mutable default arguments are not mutated; (4) mode hazards: every concrete value read from a narrow typed array carries its dtype, an operation whose exact (Numba: 64-bit) result does not fit the type NumPy's scalar arithmetic would give it marks the path, and the path's witness is then run on the real build in both modes: differing outcomes are a violation, equal outcomes are listed as benign. NOT decided: that the Numba-compiled code computes what the source says (no tool here executes Numba's LLVM IR "
         "symbolically); as supporting evidence only, every path witness is re-run on the real build in BOTH modes and must give the predicted solution sequence and statistics."
     )
     chk.assumptions += ["JIT vs interpreted equivalence is NOT claimed as solver-decided (see explanation); cross-process effects (Numba cache files) are outside"]
